@@ -185,6 +185,7 @@ void *threadMain(void *vp) {
         if (next == t->id) next = -1;
     }
     tl_rt = nullptr;
+    containThreadExit();
     if (next >= 0)
         handOver(t, next, 0);
     else
